@@ -16,6 +16,10 @@ ASSUMPTIONS = [
     "Task.result() re-raises the task's exception / a CancelledError for a cancelled task; BaseExceptionGroup.split(CancelledError) "
     "separates exactly the CancelledErrors",
     "BackgroundService.__del__ (cancel at garbage collection) is outside the schedules",
+    "cancel_and_await(task) is modelled as stop() of the anonymous singleton set {task} (done task: immediate return); `await task` "
+    "resumes only when the task is done and re-raises its exception; the caller itself is not cancelled meanwhile",
+    "`async with service:` is __aenter__ = start(), __aexit__ = stop() whatever the body did (normal exit, exception, cancellation); "
+    "a second cancellation of the task executing __aexit__ is outside the schedules",
     "the restart-limit default (None) is not translatable by the T-tie (value None): it is tied by correspondence only",
 ]
 
@@ -151,6 +155,42 @@ class C10Stream(A.ActorStream):
                 bad = [x for x in got_err if x[0] not in later]
                 if bad:
                     V(f"{name}: {name}() of actor {a} raised {bad}, which are not errors of its tasks")
+        # ---- cancel_and_await(task): returns only after the task is done; non-cancellation errors propagate
+        for e in log:
+            if e[1] != "cawcall":
+                continue
+            tid, wid, was_done = e[2], e[3], e[5]
+            if wid not in rets:
+                if not obs["hung"]:
+                    V(f"cancel_and_await: the call on task {tid} never returned")
+                continue
+            r = rets[wid][1]
+            if not all(r[4]):
+                V(f"cancel_and_await: returned while task {tid} was still running (it was "
+                  f"{'already being cancelled' if e[6] else 'running'} at the call)")
+            o = fin[tid][0]
+            want = "ok" if was_done or o not in ("exc", "base") else [[tid, o]]
+            if r[3] != want and all(r[4]):
+                V(f"cancel_and_await: task {tid} ended as {o}; the call " + ("returned normally" if r[3] == "ok" else f"raised {r[3]}")
+                  + f", expected {'normal return' if want == 'ok' else want}")
+            if not was_done and e[4] != [tid]:
+                V(f"cancel_and_await: the cancellation of the unfinished task {tid} was not requested")
+        # ---- async with service: __aexit__ is stop(), however the body ends
+        for e in log:
+            if e[1] != "withdone":
+                continue
+            a, set0, flags, raised, how = e[2], e[3], e[4], e[5], e[6]
+            if not all(flags):
+                V(f"async-with: the `async with` block of actor {a} (body: {e[7]}) was left while tasks "
+                  f"{[t for t, d in zip(set0, flags) if not d]} of the service were still running")
+                continue
+            outcomes = {t: fin[t][0] for t in set0}
+            errs0 = sorted([t, o] for t, o in outcomes.items() if o in ("exc", "base"))
+            if any(o != "ret" for o in outcomes.values()) or not set0:
+                got = sorted(x for x in raised if x[1] != "cancelled")
+                if got != errs0:
+                    V(f"async-with: leaving the block of actor {a} (body: {e[7]}) raised {got}; the non-cancellation errors "
+                      f"of its tasks {set0} are {errs0}")
         # ---- run()
         begun = {e[2]: e for e in log if e[1] == "runbegin"}
         calls = {e[2]: e for e in log if e[1] == "runcall"}
